@@ -615,8 +615,12 @@ def token_content(tok):
 def pairs_case(draw):
     atoms = draw(st.lists(st.sampled_from(['a', 'b', ' ', 'BS', 'BS', 'DQ', 'SQ', '1', 'é']), min_size=0, max_size=6))
     tail = draw(st.integers(0, 3))  # escaped backslashes at the very end
-    form = draw(st.sampled_from(['dq', 'sq', 'url-dq', 'url-sq']))
+    form = draw(st.sampled_from(['dq', 'sq', 'url-dq', 'url-sq', 'url-bare']))
     q = '"' if 'dq' in form else "'"
+    if form == 'url-bare':
+        atoms = [a for a in atoms if a not in (' ', 'DQ', 'SQ')]
+        body = ''.join('\\\\' if a == 'BS' else a for a in atoms + ['BS'] * tail)
+        return {'src': 'url(' + body + ')', 'form': form, 'omit': draw(st.booleans())}
     body = ''
     for a in atoms + ['BS'] * tail:
         if a == 'BS':
